@@ -266,7 +266,7 @@ def one_run(files, r):
     os.makedirs(root)
     write_tree(root, files)
     status, rc, out, cmdline = launch(root, r)
-    res = {"status": status, "rc": rc, "cmd": cmdline, "problems": [], "verdicts": None}
+    res = {"status": status, "rc": rc, "cmd": cmdline, "problems": [], "verdicts": None, "mism": set()}
     if status == "timeout":
         shutil.rmtree(root, ignore_errors=True)
         return res
@@ -310,6 +310,8 @@ def one_run(files, r):
             deviation = True
         else:
             key = "C52.verdict.step" if got[1] != exp_doc[nme][1] and got[1] != exp_tool[nme][1] else "C52.verdict.file"
+            res["mism"] |= {(nme, i) for i, (x, y, z) in enumerate(zip(got[1], exp_doc[nme][1], exp_tool[nme][1]))
+                            if x != y and x != z} or {(nme, "file")}
             P.append((key, "%s: %s: steps %s -> %s, expected %s -> %s" % (
                 cmdline, nme, list(zip(order, got[1])), got[0], exp_doc[nme][1], exp_doc[nme][0])))
         f = [x for x in files if "./" + (x["dir"] + "/" if x["dir"] else "") + x["name"] + ".check" == nme][0]
@@ -324,10 +326,12 @@ def one_run(files, r):
         if (rc != 0) == any_fail_tool:
             deviation = True
         else:
+            res["mism"].add(("exit", any_fail_doc))
             P.append(("C52.exit_status", "%s: exit status %d although %s" % (
                 cmdline, rc, "the files %s are expected to fail" % sorted(k for k, v in exp_doc.items() if not v[0])
                 if any_fail_doc else "no file is expected to fail")))
     if verdicts and not err and (rc != 0) != any(not v for v in verdicts.values()):
+        res["mism"].add(("exitlog", rc))
         P.append(("C52.exit_status", "%s: exit status %d but tfel-check.log verdicts %s" % (cmdline, rc, verdicts)))
     # every command ran exactly once
     for f in files:
@@ -385,12 +389,23 @@ def check_case(case):
             vkeys = ("C52.verdict.step", "C52.verdict.file", "C52.exit_status")
             if any(p[0] in vkeys for p in res["problems"]):
                 # deterministic or schedule dependent?  the same invocation is tried again (twice at most)
+                # (a wrong step verdict counts as reproduced only if the same step of the same file is wrong again)
+                def relevant(m):  # an exit status that follows from wrong step verdicts is not a fact of its own
+                    steps = set(x for x in m if x[0] not in ("exit", "exitlog"))
+                    return steps or set(m)
+                common = relevant(res["mism"])
                 for _again in range(2):
                     res2 = one_run(files, r)
-                    if res2["status"] == "exit" and not any(p[0] in vkeys for p in res2["problems"]):
+                    if res2["status"] != "exit":
+                        continue
+                    common &= relevant(res2["mism"])
+                    if not common:
                         res["problems"] = [((K_STATUS, "not reproduced when the same invocation is repeated: " + p[1])
                                             if p[0] in vkeys else p) for p in res["problems"]]
-                        res["verdicts"] = res2["verdicts"]
+                        if not any(p[0] in vkeys for p in res2["problems"]):
+                            res["verdicts"] = res2["verdicts"]
+                        else:
+                            res["verdicts"] = None
                         classes.add("race.status")
                         break
             problems += res["problems"]
